@@ -183,6 +183,18 @@ def build(tier, rng):
             n = len(gen.words)
             g.case(("phrase", ws, ent))
             g.check(gen.length * math.log2(n) >= ent - 1e-9, "pwd:phrase-entropy", "generated phrase carries less than the requested entropy", {"wordset": ws, "entropy": ent, "length": gen.length})
+    # a source with duplicate elements skews the distribution and over-states the entropy: refused, every time it is offered
+    for label, call in (
+        ("chars-str", lambda: pwd.genword(chars="aaaabcde", length=3)),
+        ("chars-str-entropy", lambda: pwd.genword(chars="abcdefgg", entropy=48)),
+        ("words-tuple", lambda: pwd.genphrase(words=("red", "red", "red", "blue"), entropy=40)),
+        ("words-list", lambda: pwd.genphrase(words=["red", "blue", "red"], length=3)),
+        ("generator-chars", lambda: pwd.WordGenerator(chars="xyzzy", length=4)),
+    ):
+        for attempt in (1, 2, 3):
+            o = outcome(call)
+            g.case(("dup-source", label, attempt))
+            g.check(o[0] == "exc" and "ValueError" in repr(o[1:]), f"pwd:duplicate-source-accepted:{label}", "a source with duplicate elements was accepted", {"source": label, "attempt": attempt, "outcome": repr(o)[:200]})
     for length in (1, 5, 9, 30):
         w = pwd.genword(length=length, charset="hex")
         g.case(("genword", length))
